@@ -91,7 +91,7 @@ def preflush_domain(spec, pre):
     from . import refsim
 
     try:
-        sim = refsim.RefSim(spec)
+        sim = refsim.RefSim(spec, initial_only=True)
         state0 = sim.initial_state()
         pv = sim.eval_pars(state0, 0)
     except Exception:
